@@ -102,6 +102,8 @@ Definition unaudited_panic_sites : list bytes :=
 Definition run_c17 (input : val) : val := L [I 1; I 1; I 1; I 1].
 Definition holds_c17 (input output : val) : val :=
   if negb (vbool (nthv 0 output)) then B (str "the-proxy-process-exited")
+  else if (Z.eqb (vZ (nthv 1 input)) 14) && negb (vbool (nthv 1 output) && vbool (nthv 2 output))
+  then B (str "other-clients-are-not-served-while-a-client-with-thousands-of-pipelined-requests-does-not-read-its-answers")
   else if negb (vbool (nthv 1 output)) then B (str "a-well-behaved-client-stopped-being-served")
   else if negb (vbool (nthv 2 output)) then B (str "new-clients-are-not-served-any-more")
   else if negb (vbool (nthv 3 output)) then B (str "offending-connection-neither-answered-nor-closed")
